@@ -49,12 +49,29 @@ pub struct Note {
     pub reopen: bool,
 }
 
-fn uris(dir: &str) -> [String; 2] {
-    [format!("file://{}/a.st", dir), format!("file://{}/b.st", dir)]
+/// file names of the two documents.  Beside the plain pair there are names that need percent
+/// encoding in a URI (non-ASCII letters, a blank) and names whose order differs between the raw
+/// and the encoded spelling: the server must identify a document by its decoded path, like `check`
+pub const NAME_SETS: &[[&str; 2]] = &[["a.st", "b.st"], ["\u{fc}_pump.st", "valve.st"], ["my file.st", "b.st"], ["Z.st", "a.st"], ["\u{e4}.st", "\u{f6}.st"], ["x%y.st", "b.st"]];
+
+fn percent_encode(name: &str) -> String {
+    let mut out = String::new();
+    for b in name.bytes() {
+        if b.is_ascii_alphanumeric() || b == b'.' || b == b'_' || b == b'-' {
+            out.push(b as char);
+        } else {
+            out.push_str(&format!("%{:02X}", b));
+        }
+    }
+    out
 }
 
-fn script(dir: &str, notes: &[Note]) -> (Vec<Value>, Vec<(String, i64)>) {
-    let u = uris(dir);
+fn uris(dir: &str, names: &[&str; 2]) -> [String; 2] {
+    [format!("file://{}/{}", dir, percent_encode(names[0])), format!("file://{}/{}", dir, percent_encode(names[1]))]
+}
+
+fn script(dir: &str, names: &[&str; 2], notes: &[Note]) -> (Vec<Value>, Vec<(String, i64)>) {
+    let u = uris(dir, names);
     let mut msgs = vec![lsp_initialize(0), lsp_initialized()];
     let mut version = [0i64; 2];
     let mut expect = vec![];
@@ -108,13 +125,19 @@ fn publications(run: &LspRun) -> Vec<(String, Option<i64>, Vec<Diag>)> {
 
 pub struct Refs {
     dir: String,
+    pub names: [&'static str; 2],
     fresh: Mutex<HashMap<String, Vec<Diag>>>,
     cli: Mutex<HashMap<String, BTreeMap<String, Vec<(String, u64, u64)>>>>,
 }
 
 impl Refs {
+    pub fn with_names(dir: &str, k: usize) -> Refs {
+        let mut r = Refs::new(dir);
+        r.names = NAME_SETS[k % NAME_SETS.len()];
+        r
+    }
     pub fn new(dir: &str) -> Refs {
-        Refs { dir: dir.to_string(), fresh: Mutex::new(HashMap::new()), cli: Mutex::new(HashMap::new()) }
+        Refs { dir: dir.to_string(), names: NAME_SETS[0], fresh: Mutex::new(HashMap::new()), cli: Mutex::new(HashMap::new()) }
     }
     /// what a fresh server publishes for `u` when the other open document is opened first
     fn fresh_for(&self, state: &[Option<String>; 2], u: usize) -> Result<Vec<Diag>, String> {
@@ -128,7 +151,7 @@ impl Refs {
             notes.push(Note { uri_idx: o, text: t.clone(), stale: None, reopen: false });
         }
         notes.push(Note { uri_idx: u, text: state[u].clone().unwrap(), stale: None, reopen: false });
-        let (msgs, _) = script(&self.dir, &notes);
+        let (msgs, _) = script(&self.dir, &self.names, &notes);
         // the reference itself is run twice; a disagreement between the two runs is C06's business
         let r1 = publications(&lsp_run(&msgs));
         let r2 = publications(&lsp_run(&msgs));
@@ -147,7 +170,7 @@ impl Refs {
             return Ok(v.clone());
         }
         let dir = Scratch::new("c11cli");
-        let names = ["a.st", "b.st"];
+        let names = self.names;
         for i in 0..2 {
             if let Some(t) = &state[i] {
                 dir.write(names[i], t.as_bytes());
@@ -176,7 +199,7 @@ impl Refs {
 }
 
 pub fn judge_history(refs: &Refs, notes: &[Note], check_cli: bool) -> Result<(), (String, String)> {
-    let (msgs, expect) = script(&refs.dir, notes);
+    let (msgs, expect) = script(&refs.dir, &refs.names, notes);
     let run = lsp_run(&msgs);
     if run.timed_out {
         return Err(("infrastructure-timeout".into(), String::new()));
@@ -203,18 +226,18 @@ pub fn judge_history(refs: &Refs, notes: &[Note], check_cli: bool) -> Result<(),
     if got != &want {
         return Err((
             "history-dependence".into(),
-            format!("after this history the server publishes {:?} for {}; a fresh server with the same current contents publishes {:?}", got, ["a.st", "b.st"][last.uri_idx], want),
+            format!("after this history the server publishes {:?} for {}; a fresh server with the same current contents publishes {:?}", got, refs.names[last.uri_idx], want),
         ));
     }
     // (3) agreement with the command line
     if check_cli {
         let cli = refs.cli_for(&state).map_err(|e| ("reference".to_string(), e))?;
         let mine: Vec<(String, u64, u64)> = got.iter().map(|d| (d.0.clone(), d.1, d.2)).collect();
-        let theirs = cli.get(["a.st", "b.st"][last.uri_idx]).cloned().unwrap_or_default();
+        let theirs = cli.get(refs.names[last.uri_idx]).cloned().unwrap_or_default();
         if mine != theirs {
             return Err((
                 "cli-disagreement".into(),
-                format!("LSP publishes (code, line, character) {:?} for {}; `ironplcc check <dir>` on the same contents reports {:?}", mine, ["a.st", "b.st"][last.uri_idx], theirs),
+                format!("LSP publishes (code, line, character) {:?} for {}; `ironplcc check <dir>` on the same contents reports {:?}", mine, refs.names[last.uri_idx], theirs),
             ));
         }
     }
@@ -342,11 +365,17 @@ pub fn run(ctx: &Ctx) -> i32 {
     rep.exhaustive = Some(false);
     rep.extra.insert("exhaustive_history_length".into(), json!(ctx.tier.pick(3, 4)));
     let cases = ctx.tier.pick(2_000, 30_000);
-    let refs2 = Refs::new(&dir);
+    let refs_sets: Vec<Refs> = (0..NAME_SETS.len()).map(|k| Refs::with_names(&dir, k)).collect();
     let out = run_tapes("C11", ctx.seed, ctx.threads, cases, 900, |tape, stats, counting| {
         let g = Gates::with_off(off.clone());
         let mut t = Tape::new(tape);
         let notes = random_history(&mut t, &g);
+        // half of the histories use the plain names, the others a pair that needs percent encoding
+        let k = if t.flag() { 0 } else { t.below(NAME_SETS.len()) };
+        let refs2 = &refs_sets[k];
+        if counting && k != 0 {
+            stats.class("random-history.names-need-percent-encoding");
+        }
         g.take_wanted();
         g.take_hits();
         if counting {
@@ -355,13 +384,13 @@ pub fn run(ctx: &Ctx) -> i32 {
             stats.class_n("random-history.notifications", notes.len() as u64);
         }
         // agreement with `ironplcc check <dir>` is also judged for the random histories
-        match judge_history(&refs2, &notes, true) {
+        match judge_history(refs2, &notes, true) {
             Ok(()) => Ok(()),
             Err((k, _)) if k == "infrastructure-timeout" => {
                 stats.inconclusive += 1;
                 Ok(())
             }
-            Err((k, d)) => Err(Failure::new("history", &k, d, json!({"history": notes.iter().map(|n| json!({"uri": (if n.uri_idx == 0 { "a.st" } else { "b.st" }), "text": n.text, "stale": n.stale, "reopen": n.reopen})).collect::<Vec<_>>()}))),
+            Err((k, d)) => Err(Failure::new("history", &k, d, json!({"names": refs2.names, "history": notes.iter().map(|n| json!({"uri": (if n.uri_idx == 0 { "a.st" } else { "b.st" }), "text": n.text, "stale": n.stale, "reopen": n.reopen})).collect::<Vec<_>>()}))),
         }
     });
     rep.add(out);
@@ -391,6 +420,13 @@ pub fn witness(w: &Value) -> Result<(), String> {
     if notes.is_empty() {
         return Err("empty history".into());
     }
+    let refs = match w["names"].as_array() {
+        Some(a) if a.len() == 2 => match NAME_SETS.iter().position(|ns| ns[0] == a[0].as_str().unwrap_or("") && ns[1] == a[1].as_str().unwrap_or("")) {
+            Some(k) => Refs::with_names(&refs.dir.clone(), k),
+            None => refs,
+        },
+        _ => refs,
+    };
     judge_history(&refs, &notes, w["cli"].as_bool().unwrap_or(true)).map_err(|(k, d)| format!("{}: {}", k, d))
 }
 
